@@ -22,6 +22,45 @@ CHECK_DEADLOCK FALSE
 """
 
 
+def validate_calls(traces, meta, workdir, shape):
+    """one TLC run (TR_Integrator) over the recorded calls of one model: (accepted, rejected[], states)"""
+    path = os.path.join(workdir, "trace.json")
+    with open(path, "w") as f:
+        json.dump({"calls": traces}, f)
+    cfg = os.path.join(workdir, "tr.cfg")
+    with open(cfg, "w") as f:
+        f.write(TR_CFG)
+    try:
+        tres = tlc.run("TR_Integrator", cfg=cfg, workers=1, env={"TRACE_FILE": path}, timeout=1200)
+    except tlc.TLCError as ex:
+        raise report.Machinery(str(ex))
+    prog = {}
+    for mt in AT.finditer(tres.out):
+        tid, l, need = int(mt.group(1)), int(mt.group(2)), int(mt.group(3))
+        cur = prog.get(tid, (0, need))
+        prog[tid] = (max(cur[0], l), need)
+    accepted, rejected = 0, []
+    if tres.invariant_violated:
+        rejected.append({"label": "invariant:" + tres.invariant_violated, "config": "?", "detail": tres.out[-800:]})
+    for tid, tr in enumerate(traces, start=1):
+        reached, need = prog.get(tid, (0, len(tr["events"]) + 1))
+        if reached >= need:
+            accepted += 1
+        elif not tres.invariant_violated:
+            ev = tr["events"][reached - 1] if 1 <= reached <= len(tr["events"]) else {}
+            # name the failing clause (diagnosis only)
+            lab = "rows"
+            if ev.get("ev") in ("Append", "Return") and ev.get("rows") is not None:
+                nobs = len(ev["rows"])
+                if ev["ev"] == "Return" and nobs != tr["nt"] + (1 if tr["includeOrigin"] else 0):
+                    lab = "row-count"
+            rejected.append({"label": lab, "config": meta[tid - 1]["config"], "at": reached,
+                             "event": {k: v for k, v in ev.items() if k != "rows"},
+                             "observed": ev.get("rows", [])[:4], "reference": tr["ref"][:4], "tol": tr["tol"],
+                             "scale": tr["scale"], "grid": meta[tid - 1]["grid"], "shape": shape})
+    return accepted, rejected, tres.distinct or 0
+
+
 def spec_ode(defn, events, odes, workdir, tag, want=()):
     """the specification's normal forms for this definition (one TLC oracle run)"""
     from harness import oracle_model as om
@@ -103,43 +142,15 @@ def det_worker(args):
                 res["maxerr"] = max(res["maxerr"], float(np.max(np.abs(sol - r2)) / (1 + np.max(np.abs(ref)))))
         if not traces:
             return res
-        path = os.path.join(workdir, "trace.json")
-        with open(path, "w") as f:
-            json.dump({"calls": traces}, f)
-        cfg = os.path.join(workdir, "tr.cfg")
-        with open(cfg, "w") as f:
-            f.write(TR_CFG)
         try:
-            tres = tlc.run("TR_Integrator", cfg=cfg, workers=1, env={"TRACE_FILE": path}, timeout=1200)
-        except tlc.TLCError as ex:
+            accepted, rejected, states = validate_calls(traces, meta, workdir, "single-state" if sy.ns == 1 else "multi-state")
+        except report.Machinery as ex:
             res["machinery"] = str(ex)
             return res
-        res["states"] = tres.distinct or 0
-        prog = {}
-        for mt in AT.finditer(tres.out):
-            tid, l, need = int(mt.group(1)), int(mt.group(2)), int(mt.group(3))
-            cur = prog.get(tid, (0, need))
-            prog[tid] = (max(cur[0], l), need)
-        if tres.invariant_violated:
-            res["rejected"].append({"label": "invariant:" + tres.invariant_violated, "config": "?", "detail": tres.out[-800:]})
-        for tid, tr in enumerate(traces, start=1):
-            reached, need = prog.get(tid, (0, len(tr["events"]) + 1))
-            res["steps"] += len(tr["events"])
-            if reached >= need:
-                res["accepted"] += 1
-            elif not tres.invariant_violated:
-                ev = tr["events"][reached - 1] if 1 <= reached <= len(tr["events"]) else {}
-                # name the failing clause (diagnosis only)
-                lab = "rows"
-                if ev.get("ev") in ("Append", "Return") and ev.get("rows") is not None:
-                    nobs = len(ev["rows"])
-                    if ev["ev"] == "Return" and nobs != tr["nt"] + (1 if tr["includeOrigin"] else 0):
-                        lab = "row-count"
-                res["rejected"].append({"label": lab, "config": meta[tid - 1]["config"], "at": reached,
-                                        "event": {k: v for k, v in ev.items() if k != "rows"},
-                                        "observed": ev.get("rows", [])[:4], "reference": tr["ref"][:4], "tol": tr["tol"],
-                                        "scale": tr["scale"], "grid": meta[tid - 1]["grid"],
-                                        "shape": "single-state" if sy.ns == 1 else "multi-state"})
+        res["accepted"] += accepted
+        res["rejected"] += rejected
+        res["states"] = states
+        res["steps"] += sum(len(tr["events"]) for tr in traces)
         res["sample"] = {"config": meta[0]["config"], "grid": meta[0]["grid"], "reference_first_rows": traces[0]["ref"][:2],
                          "scale": traces[0]["scale"], "tol": traces[0]["tol"]}
         res["theta"] = [str(t) for t in theta]
